@@ -134,20 +134,37 @@ func ruleSortComparatorsTwoSided(c *Ctx, rule string) {
 	if fn == nil {
 		return
 	}
+	// the comparators may be closures of sortFunc or named functions handed around as values: every bool function of the
+	// package (and the same-package helpers it calls) is looked at
 	n := 0
-	for _, cl := range fn.AnonFuncs {
-		n++
-		bad := false
-		for _, f := range append([]*ssa.Function{cl}, helperFns(cl, 2)...) {
-			for _, bo := range oneSidedPositional(f) {
-				bad = true
-				c.ob(rule, f, "a positional comparison used for sorting decides both ways", bo, false,
-					"the loop tests the two elements of a position in one direction only and never for (in)equality: a later position overrules an earlier one, less(a,b) and less(b,a) can both hold")
+	seen := map[*ssa.Function]bool{}
+	var scope []*ssa.Function
+	for _, f := range c.SrcFns {
+		if f.Pkg != fn.Pkg {
+			continue
+		}
+		for _, g := range withAnon(f) {
+			for _, h := range append([]*ssa.Function{g}, helperFns(g, 2)...) {
+				if !seen[h] {
+					seen[h] = true
+					scope = append(scope, h)
+				}
 			}
 		}
-		if !bad {
-			c.ob(rule, cl, "a positional comparison used for sorting decides both ways", nil, true,
-				"the comparator and the same-package helpers it calls (depth 2) contain no one-sided positional comparison")
+	}
+	for _, f := range scope {
+		if f.Signature.Results().Len() != 1 || !types.Identical(f.Signature.Results().At(0).Type().Underlying(), types.Typ[types.Bool]) {
+			continue
+		}
+		n++
+		bos := oneSidedPositional(f)
+		for _, bo := range bos {
+			c.ob(rule, f, "a positional comparison used for sorting decides both ways", bo, false,
+				"the loop tests the two elements of a position in one direction only and never for (in)equality: a later position overrules an earlier one, less(a,b) and less(b,a) can both hold")
+		}
+		if len(bos) == 0 {
+			c.ob(rule, f, "a positional comparison used for sorting decides both ways", nil, true,
+				"the bool function contains no one-sided positional comparison")
 		}
 	}
 	if n == 0 {
@@ -218,12 +235,7 @@ func ruleReservationDeleteFreesOnlyReservation(c *Ctx, rule string) {
 	}
 	isReservation := func(v ssa.Value) (bool, int) {
 		if u, ok := v.(*ssa.UnOp); ok && u.Op == token.NOT {
-			ex, ok := u.X.(*ssa.Extract)
-			if !ok {
-				return false, 0
-			}
-			v = ex
-			m, s := cachedLabelLookup(v)
+			m, s := cachedLabelLookup(u.X)
 			return m, 1 - s
 		}
 		return cachedLabelLookup(v)
@@ -244,8 +256,45 @@ func ruleReservationDeleteFreesOnlyReservation(c *Ctx, rule string) {
 	}
 }
 
-// cachedLabelLookup: v is the ok of `_, ok := x.Labels[..]` with x a cache entry (*floatingip.FloatingIP)
+// cachedLabelLookup: v is the ok of `_, ok := x.Labels[..]` with x a cache entry (*floatingip.FloatingIP), or the result of a
+// same-package predicate that is given x (or x.Labels) and returns the ok of such a lookup on its parameter
 func cachedLabelLookup(v ssa.Value) (bool, int) {
+	if call, isCall := v.(*ssa.Call); isCall {
+		callee := call.Call.StaticCallee()
+		if callee == nil || callee.Signature.Results().Len() != 1 || len(callee.Blocks) == 0 {
+			return false, 0
+		}
+		given := false
+		for _, a := range call.Call.Args {
+			if b, name, ok := fieldLoad(a); ok && name == "Labels" && typeNameOf(b.Type()) == "FloatingIP" && strings.Contains(b.Type().String(), fipPkg) {
+				given = true
+			}
+			if typeNameOf(a.Type()) == "FloatingIP" && strings.Contains(a.Type().String(), fipPkg) {
+				given = true
+			}
+		}
+		if !given {
+			return false, 0
+		}
+		for _, ret := range returns(callee) {
+			ex, ok := ret.Results[0].(*ssa.Extract)
+			if !ok || ex.Index != 1 {
+				return false, 0
+			}
+			lk, ok := ex.Tuple.(*ssa.Lookup)
+			if !ok || !lk.CommaOk {
+				return false, 0
+			}
+			if _, isP := lk.X.(*ssa.Parameter); !isP {
+				if b, name, ok := fieldLoad(lk.X); !ok || name != "Labels" {
+					return false, 0
+				} else if _, isP := b.(*ssa.Parameter); !isP {
+					return false, 0
+				}
+			}
+		}
+		return true, 0
+	}
 	ex, ok := v.(*ssa.Extract)
 	if !ok || ex.Index != 1 {
 		return false, 0
@@ -343,6 +392,9 @@ func ruleBindingNamesIncarnation(c *Ctx, rule string) {
 	scope = append(scope, helperFns(fn, 2)...)
 	for _, f := range append([]*ssa.Function{}, scope...) {
 		scope = append(scope, f.AnonFuncs...)
+		for _, a := range f.AnonFuncs {
+			scope = append(scope, helperFns(a, 1)...)
+		}
 	}
 	for _, f := range scope {
 		for _, b := range callsLocal(f, "PodInterface).Bind", "PodExpansion).Bind") {
@@ -397,7 +449,7 @@ func ruleChecklistPodKeysOnly(c *Ctx, rule string) {
 	if fn == nil {
 		return
 	}
-	hasPod := guardEdges(fn, func(v ssa.Value) (bool, int) {
+	podNamed := func(v ssa.Value) (bool, int) {
 		bo, ok := v.(*ssa.BinOp)
 		if !ok || (bo.Op != token.EQL && bo.Op != token.NEQ) || !isFieldLoadNamed(bo.X, "PodName") {
 			return false, 0
@@ -410,7 +462,39 @@ func ruleChecklistPodKeysOnly(c *Ctx, rule string) {
 			return true, 1
 		}
 		return true, 0
-	})
+	}
+	hasPod := guardEdges(fn, podNamed)
+	// the guards may sit in a predicate helper `(key, ok)`: its ok is true only behind the pod-name edge
+	hasPod = append(hasPod, guardEdges(fn, func(v ssa.Value) (bool, int) {
+		ex, ok := v.(*ssa.Extract)
+		if !ok {
+			return false, 0
+		}
+		call, ok := ex.Tuple.(*ssa.Call)
+		if !ok {
+			return false, 0
+		}
+		h := call.Call.StaticCallee()
+		if h == nil || len(h.Blocks) == 0 || h.Pkg != fn.Pkg || ex.Index >= h.Signature.Results().Len() {
+			return false, 0
+		}
+		if b, isB := h.Signature.Results().At(ex.Index).Type().Underlying().(*types.Basic); !isB || b.Kind() != types.Bool {
+			return false, 0
+		}
+		he := guardEdges(h, podNamed)
+		if len(he) == 0 {
+			return false, 0
+		}
+		for _, ret := range returns(h) {
+			if k, isC := ret.Results[ex.Index].(*ssa.Const); isC && k.Value != nil && k.Value.Kind() == constant.Bool && !constant.BoolVal(k.Value) {
+				continue
+			}
+			if !guardedBy(h, ret, he) {
+				return false, 0
+			}
+		}
+		return true, 0
+	})...)
 	n := 0
 	allInstrs(fn, func(in ssa.Instruction) {
 		call, ok := isBuiltinCall(in, "append")
@@ -499,7 +583,7 @@ func rulePoolKeyOnlyWithoutApp(c *Ctx, rule string) {
 	if fn == nil {
 		return
 	}
-	noApp := guardEdges(fn, func(v ssa.Value) (bool, int) {
+	noAppPred := func(v ssa.Value) (bool, int) {
 		bo, ok := v.(*ssa.BinOp)
 		if !ok || (bo.Op != token.EQL && bo.Op != token.NEQ) || !isFieldLoadNamed(bo.X, "AppName") {
 			return false, 0
@@ -512,7 +596,8 @@ func rulePoolKeyOnlyWithoutApp(c *Ctx, rule string) {
 			return true, 0
 		}
 		return true, 1
-	})
+	}
+	noApp := guardEdges(fn, noAppPred)
 	n := 0
 	allInstrs(fn, func(in ssa.Instruction) {
 		st, ok := in.(*ssa.Store)
@@ -521,6 +606,26 @@ func rulePoolKeyOnlyWithoutApp(c *Ctx, rule string) {
 		}
 		if _, isKey := fieldAddrNamed(st.Addr, "KeyInDB"); !isKey {
 			return
+		}
+		// the key computed by a same-package helper: its returns are judged in the helper
+		if call, isCall := st.Val.(*ssa.Call); isCall {
+			takesKey := false
+			for _, a := range call.Call.Args {
+				if typeNameOf(a.Type()) == "KeyObj" {
+					takesKey = true
+				}
+			}
+			if h := call.Call.StaticCallee(); takesKey && h != nil && len(h.Blocks) > 0 && h.Pkg == fn.Pkg {
+				he := guardEdges(h, noAppPred)
+				for _, ret := range returns(h) {
+					if len(ret.Results) != 1 || dependsOnLocal(ret.Results[0], func(x ssa.Value) bool { return isFieldLoadNamed(x, "PodName") }) {
+						continue
+					}
+					n++
+					c.ob(rule, h, "a key without pod name is produced only for an empty app name", ret, len(he) > 0 && guardedBy(h, ret, he), "the return of a key without pod name is reached only through the `AppName == \"\"` edge")
+				}
+				return
+			}
 		}
 		if dependsOnLocal(st.Val, func(x ssa.Value) bool { return isFieldLoadNamed(x, "PodName") }) {
 			return
@@ -585,7 +690,14 @@ func ruleRetryKeepsError(c *Ctx, rule string) {
 		return
 	}
 	n := 0
-	for _, f := range append([]*ssa.Function{fn}, fn.AnonFuncs...) {
+	scope := append([]*ssa.Function{fn}, helperFns(fn, 1)...)
+	for _, f := range append([]*ssa.Function{}, scope...) {
+		scope = append(scope, f.AnonFuncs...)
+		for _, a := range f.AnonFuncs {
+			scope = append(scope, helperFns(a, 1)...)
+		}
+	}
+	for _, f := range scope {
 		allInstrs(f, func(in ssa.Instruction) {
 			call, ok := in.(*ssa.Call)
 			if !ok || call.Call.IsInvoke() || call.Call.StaticCallee() != nil {
